@@ -13,7 +13,8 @@ def getBehaviour (j : Json) : Except String Behaviour := do
   | "never_reads" => pure .neverReads
   | "stops_reading" => pure .stopsReading
   | "flood" => pure .flood
-  | "close_stdout" => pure .closeStdout
+  | "close_stdout" => pure (.closeStdout ((j.getObjValAs? String "linger").toOption == some "stubborn")
+                                         ((j.getObjValAs? Nat "close_after").toOption.getD 0))
   | "close_stdin" => pure .closeStdin
   | "slow_start" => pure .slowStart
   | s => throw s!"unknown behaviour {s}"
@@ -61,19 +62,26 @@ def handle (j : Json) : Except String Json := do
   let reqs := match m with
     | .after n => (List.range n).map (fun i => if answers b (i + 1) then "returned" else "timeout")
     | _ => []
-  match leave Design.sound os p (childSpec b m) load with
-  | none =>
+  -- `sessions` sequential sessions on one client object: every one of them must end like the first
+  let k := (j.getObjValAs? Nat "sessions").toOption.getD 1
+  let rs := sessions Design.sound os (List.replicate k (p, childSpec b m, load))
+  let bound := graceTermMs + graceKillMs
+  let allOk := rs.all (fun r => match r with
+    | some t => t.child == ChildState.reaped && decide (t.duration ≤ bound)
+    | none => false)
+  match rs.head? with
+  | none | some none =>
     return Json.mkObj [("raised_on_enter", Json.bool false), ("child", Json.str "running"),
       ("returns", Json.bool false), ("bounded", Json.bool false), ("requests", toJson reqs)]
-  | some t =>
+  | some (some t) =>
     return Json.mkObj [
       ("raised_on_enter", Json.bool false),
       ("returns", Json.bool true),
-      ("child", Json.str (stateName t.child)),
+      ("child", Json.str (if allOk then stateName t.child else "running")),
       ("duration", toJson t.duration),
-      ("bound", toJson (graceTermMs + graceKillMs)),
-      ("bounded", Json.bool (decide (t.duration ≤ graceTermMs + graceKillMs))),
+      ("bound", toJson bound),
+      ("bounded", Json.bool (rs.all (fun r => match r with | some t => decide (t.duration ≤ bound) | none => false))),
       ("signals", Json.arr (t.signals.map (fun (at_, sg) =>
           Json.arr #[toJson at_, Json.str (match sg with | .term => "term" | .kill => "kill")])).toArray),
-      ("requests", toJson reqs)]
+      ("requests", toJson ((List.replicate k reqs).flatten))]
 end Verif.Drv.Shutdown
